@@ -581,6 +581,12 @@ class Gen:
                 return ("icall", r.choice(["new", "ctor"]), [self.expr("any", env, d - 1) for _ in range(r.randint(0, 3))])
             if c < 0.83:
                 return r.choice([("quote", "(a b [1 2])", ("list", (("sym", "a"), ("sym", "b"), ("vec", (1, 2))))), ("quote", "x", ("sym", "x")), ("quote", "[if :k]", ("vec", (("sym", "if"), ("kw", "k"))))])
+            if not leafy and self.allow_def and c < 0.85:
+                # a def in value position (if branch, argument, last body form, ...): its value is the Var
+                g = r.choice(GLOBAL_NAMES)
+                if g not in env:
+                    t = self.globals.get(g) or r.choice(["int", "any"])
+                    return ("def", g, self.expr(t, env, d - 2))
             return ("const", r.choice(CONSTS_ANY))
         if ty == "vec":
             c = r.random()
@@ -827,6 +833,23 @@ class Gen:
 
     def letfn(self, ty, env, d):
         r = self.r
+        if r.random() < 0.4:
+            # forward reference: the first function calls a sibling bound after it; bodies close over the surrounding locals
+            f1, f2 = "fwd-a", "fwd-b"
+            x, y = self.param_name([]), self.param_name([])
+            self.param_names.update((x, y))
+            eo = {nm: (t[6:] if t.startswith("catch:") else t) for nm, t in self.fn_env(env).items()}
+            e_b = dict(eo)
+            e_b.update({f1: "fnx", f2: "fnx", y: "any"})
+            body_b = self.expr("any", e_b, d - 2)
+            body_a = self.maybe_mark(("call", ("local", f2), [("local", x)]))
+            binds = [(f1, ("fn", f1, [([x], None, [body_a])])), (f2, ("fn", f2, [([y], None, [body_b])]))]
+            e2 = dict(env)
+            e2.update({f1: "fnx", f2: "fnx"})
+            first = ("call", ("local", r.choice([f1, f2])), [self.expr("any", env, d - 2)])
+            if ty == "any" and r.random() < 0.5:
+                return ("letfn", binds, [first])
+            return ("letfn", binds, [first, self.expr(ty, e2, d - 1)])
         e2 = dict(env)
         ev, od = "ev?", "od!"
         e2[ev] = "fnint"
